@@ -339,7 +339,9 @@ Definition crash_points (c : cfg) (w : world) (o : op) : list world :=
    histories is a theorem about histories without deletions.  They exist for C15's clause "in a directory created on
    demand": the next open() re-creates the directory (0700) and a new file (configured mode). *)
 Inductive xop := XOp (o : op) | XRmDir (t : Z) | XRmActive (t : Z)
-  | XAppend (pos : N) (x : N) (t : Z).   (* somebody appends the bytes of chunk x to the pos-th (0 = oldest) file of the sink *)
+  | XAppend (pos : N) (x : N) (t : Z)    (* somebody appends the bytes of chunk x to the pos-th (0 = oldest) file of the sink *)
+  | XUnformatted (t : Z).                 (* Process with an event that does not carry the sink's format: "event was not marshaled",
+                                             returned before the lock is taken — nothing happens *)
 Definition fs_append_name (n : name) (x : N) (fs : list file) : list file :=
   map (fun f => if name_eqb (f_name f) n then add_data f x else f) fs.
 Definition fs_remove_ino (i : N) (fs : list file) : list file := filter (fun f => negb (N.eqb (f_ino f) i)) fs.
@@ -355,6 +357,7 @@ Definition xstep3 (c : cfg) (w : world) (x : xop) : world * bool * bool :=
       | Some (i, _) => (set_clock (set_files w (fs_remove_ino i (files w))) t, true, false)
       | None => (set_clock w t, true, false)
       end
+  | XUnformatted t => (set_clock w t, match path c with PDevNull => true | _ => false end, false)   (* /dev/null answers nil before it looks at the event *)
   | XAppend pos x t =>
       match nth_error (reading_files (files w)) (N.to_nat pos) with
       | Some f => (set_clock (set_files w (fs_append_name (f_name f) x (files w))) t, true, false)
@@ -362,4 +365,4 @@ Definition xstep3 (c : cfg) (w : world) (x : xop) : world * bool * bool :=
       end
   end.
 Definition xstep (c : cfg) (w : world) (x : xop) : world := fst (fst (xstep3 c w x)).
-Definition xop_clock (x : xop) : op := match x with XOp o => o | XRmDir t | XRmActive t | XAppend _ _ t => Pause t end.
+Definition xop_clock (x : xop) : op := match x with XOp o => o | XRmDir t | XRmActive t | XAppend _ _ t | XUnformatted t => Pause t end.
